@@ -1226,7 +1226,7 @@ impl Prop for C10 {
         "C10"
     }
     fn rule(&self) -> &'static str {
-        "random histories (1..40 ops over a pool of live readers: fixed/LEB/sized reads, skip, split, truncate, empty, find, clone, drop, offset_from, offset_id+lookup on every pool member and a foreign buffer, to_slice/to_string*, range*) over buffers of 1..64 bytes, run on six reader kinds in lock-step against a cursor model; after every op every live reader's (pointer,len) must equal the model's (offset,len) inside the original buffer, and the six observation traces must be equal. separate mode (whole sections): an assembler-built section set (sometimes with one section cut short or damaged) parsed through EndianSlice, EndianRcSlice, EndianArcSlice and an identity-relocating reader gives the same dump of units, entries, attribute values, expressions and line rows incl. errors, and offset identifiers taken at the start, middle and end of every section map back to (section, offset) through Dwarf::lookup_offset_id. Non-trivial = history with >=1 successful split followed by further ops, >=6 observations, and a clone that outlives the root reader; distinct by choice string."
+        "random histories (1..40 ops over a pool of live readers: fixed/LEB/sized reads, skip, split, truncate, empty, find, clone, drop, offset_from, offset_id+lookup on every pool member and a foreign buffer, to_slice/to_string*, range*) over buffers of 1..64 bytes, run on six reader kinds in lock-step against a cursor model; after every op every live reader's (pointer,len) must equal the model's (offset,len) inside the original buffer, and the six observation traces must be equal. separate mode (whole sections): an assembler-built section set (sometimes with one section cut short or damaged) parsed through EndianSlice, EndianRcSlice, EndianArcSlice and an identity-relocating reader gives the same dump of units, entries, attribute values, expressions and line rows incl. errors, and offset identifiers taken at the start, middle and end of every section map back to (section, offset) through Dwarf::lookup_offset_id. Non-trivial = history with >=1 successful split followed by further ops, >=6 observations, and a clone that outlives the root reader; distinct by choice string. Later additions: Deref of every live reader; Section::dwp_range; owned section sets borrowed afterwards; EndianSlice::split_at / to_string / to_string_lossy; indexing, equality and hashing of EndianReaders."
     }
     fn assumptions(&self) -> Vec<&'static str> {
         vec![
